@@ -168,13 +168,20 @@ type run struct {
 	pauseReq   chan struct{} // the consumer of r.In stops consuming (synchronous hand-over)
 	resume     chan struct{}
 	busyStop   chan struct{} // non-nil while the busy sender runs
+	stayArmed  bool
+	sentAt     []time.Time // long-lived connection: when numbered message n was handed to r.Out
+	echoSeq    []int
 }
 
 func (r *run) step(i int) Step {
 	if i < len(r.c.Sched) {
 		return r.c.Sched[i]
 	}
-	return Step{A: "refuse", W: "refuse"} // beyond the script (only reached if the client outruns the model)
+	// beyond the script (only reached if the client outruns the model)
+	if n := len(r.c.Sched); n > 0 && r.c.Sched[n-1].W == "acceptstay" {
+		return r.c.Sched[n-1] // the healthy server stays healthy, whoever connects again
+	}
+	return Step{A: "refuse", W: "refuse"}
 }
 
 func (r *run) doCancel(forced bool) {
@@ -200,7 +207,7 @@ func (r *run) endAttempt(a *attempt) {
 	a.end = time.Now()
 	r.mu.Unlock()
 	if r.trigger(a.idx+1, "wait") {
-		w := waitBefore(r.c.Loop, r.c.Sched, a.idx+1)
+		w := waitBefore(r.c.Loop, r.c.Sched, a.idx+1, r.c.Min, r.c.Max)
 		go func() {
 			select {
 			case <-time.After(time.Duration(w / 2)):
@@ -312,7 +319,7 @@ func (r *run) wsHandler(w http.ResponseWriter, req *http.Request) {
 		case <-req.Context().Done():
 		case <-r.finished:
 		}
-	case "accept", "accepthang", "acceptdropw":
+	case "accept", "accepthang", "acceptdropw", "acceptstay":
 		c, err := upgrader.Upgrade(w, req, nil)
 		if err != nil {
 			return
@@ -322,8 +329,47 @@ func (r *run) wsHandler(w http.ResponseWriter, req *http.Request) {
 		r.mu.Unlock()
 		if st.W == "acceptdropw" {
 			r.serveDropW(c, a)
+		} else if st.W == "acceptstay" {
+			r.serveStay(c, a)
 		} else {
 			r.serveConn(c, a, st)
+		}
+	}
+}
+
+// serveStay: a healthy server: echoes every message for as long as the client stays; the context is
+// cancelled [Stay] after the first such connection was established.
+func (r *run) serveStay(c *websocket.Conn, a *attempt) {
+	defer c.Close()
+	r.mu.Lock()
+	first := !r.stayArmed
+	r.stayArmed = true
+	r.mu.Unlock()
+	if first {
+		go func() {
+			select {
+			case <-time.After(time.Duration(r.c.Stay)):
+				r.doCancel(false)
+			case <-r.finished:
+			}
+		}()
+	}
+	for {
+		_ = c.SetReadDeadline(time.Now().Add(time.Duration(r.c.Stay) + 10*time.Second))
+		mt, data, err := c.ReadMessage()
+		if err != nil {
+			r.mu.Lock()
+			if !r.cancelAt.IsZero() && r.connClosed.IsZero() {
+				r.connClosed = time.Now()
+			}
+			r.mu.Unlock()
+			return
+		}
+		r.mu.Lock()
+		a.k++
+		r.mu.Unlock()
+		if err := c.WriteMessage(mt, data); err != nil {
+			return
 		}
 	}
 }
@@ -498,9 +544,9 @@ func serve(h http.HandlerFunc, keepAlive bool) (*http.Server, int) {
 // deadline for the scripted cancellation to have fired: the waits the property allows at most (Max each)
 // plus a generous allowance per attempt, plus the library timeouts of scripted hangs
 func (c *Case) deadline() time.Duration {
-	d := 3 * time.Second
+	d := 3*time.Second + time.Duration(c.Stay)
 	for i := 0; i <= c.Cancel.I && i < len(c.Sched); i++ {
-		d += time.Duration(cfgMax) + 400*time.Millisecond
+		d += time.Duration(c.Max) + 400*time.Millisecond
 		if c.Loop == "auth" && c.Sched[i].A == "hang" {
 			d += 11 * time.Second
 		}
@@ -516,9 +562,9 @@ func (c *Case) deadline() time.Duration {
 // into a deadline only, so a handshake that hangs runs out the 45 s HandshakeTimeout; then Reconnect
 // still serves one backoff sleep (<= Max).
 func (c *Case) stopAllowance() time.Duration {
-	d := time.Duration(cfgMax) + 12*time.Second
+	d := time.Duration(c.Max) + 12*time.Second
 	if c.Cancel.I < len(c.Sched) && c.Sched[c.Cancel.I].W == "hang" && c.Cancel.P == "ws" {
-		d = time.Duration(cfgMax) + 47*time.Second
+		d = time.Duration(c.Max) + 47*time.Second
 	}
 	return d
 }
@@ -550,6 +596,12 @@ func runLoop(c *Case) {
 			select {
 			case m := <-rc.In:
 				parts := strings.Split(string(m.Data), ":")
+				if len(parts) == 2 && parts[0] == "e" {
+					n, _ := strconv.Atoi(parts[1])
+					r.mu.Lock()
+					r.echoSeq = append(r.echoSeq, n)
+					r.mu.Unlock()
+				}
 				if len(parts) == 3 && parts[0] == "s" {
 					ai, _ := strconv.Atoi(parts[1])
 					n, _ := strconv.Atoi(parts[2])
@@ -596,6 +648,30 @@ func runLoop(c *Case) {
 		}
 	}()
 
+	if c.Stay > 0 { // the user of a long-lived connection: a numbered message every ~300 ms
+		go func() {
+			for n := 0; ; n++ {
+				mt := websocket.TextMessage
+				if n%2 == 1 {
+					mt = websocket.BinaryMessage
+				}
+				select {
+				case rc.Out <- reconws.WsMessage{Type: mt, Data: []byte(fmt.Sprintf("e:%d", n))}:
+					r.mu.Lock()
+					r.sentAt = append(r.sentAt, time.Now())
+					r.mu.Unlock()
+				case <-r.finished:
+					return
+				}
+				select {
+				case <-time.After(300 * time.Millisecond):
+				case <-r.finished:
+					return
+				}
+			}
+		}()
+	}
+
 	returned := make(chan struct{})
 	var returnedAt time.Time
 	r.launch = time.Now()
@@ -640,7 +716,7 @@ WAIT:
 		}
 	}
 	// quiet period: anything the client still does now is after the cancellation
-	time.Sleep(time.Duration(cfgMax) + 150*time.Millisecond)
+	time.Sleep(time.Duration(c.Max) + 150*time.Millisecond)
 	r.doCancel(true)
 	close(r.finished)
 
@@ -678,6 +754,10 @@ WAIT:
 			prevEnd = a.start
 		}
 	}
+	for _, t := range r.sentAt {
+		tr.SentAt = append(tr.SentAt, rel(t))
+	}
+	tr.EchoSeq = append([]int{}, r.echoSeq...)
 	c.Trace = tr
 }
 
@@ -699,7 +779,7 @@ func runAll(cases []Case, out *childOut) {
 	order := make([]int, 0, len(cases))
 	for pass := 0; pass < 2; pass++ { // the schedules with a library timeout in them go first
 		for i := range cases {
-			slow := cases[i].Kind == "loop" && cases[i].stopAllowance() > 20*time.Second
+			slow := cases[i].Kind == "loop" && (cases[i].stopAllowance() > 20*time.Second || cases[i].Stay > 0)
 			if (pass == 0) == slow {
 				order = append(order, i)
 			}
